@@ -214,7 +214,7 @@ def build(chk: Check) -> None:
     from ampform.helicity import _HelicityModelIngredients
 
     ex = Executor("reset")
-    self_rec = Rec("_HelicityModelIngredients", {k: {"old": 1} for k in ("parameter_defaults", "amplitudes", "components", "kinematic_variables")})
+    self_rec = Rec("_HelicityModelIngredients", {k: {"old": 1} for k in ("parameter_defaults", "amplitudes", "components", "kinematic_variables")}, _HelicityModelIngredients)
     olds = {k: v for k, v in self_rec.attrs.items()}
     if not hasattr(_HelicityModelIngredients, "reset"):
         chk.struct("reset.exists", False, "ampform.helicity._HelicityModelIngredients.reset", lemma=True, replay=purity_replay,
